@@ -298,6 +298,20 @@ pub fn items() -> Vec<Item> {
         v.push(Item::FromString("ok.example 7 IN TXT \"hello\"".to_string()));
         v.push(Item::FromString("ok.example 7 IN MX 5 mail.ok.example".to_string()));
     }
+    // an OPT record that repeats an option code among three distinct ones (whatever a rename does with the
+    // options must not depend on anything but the bytes)
+    {
+        let mut m = base_msg(&nm("b.a"), T_A, true);
+        m.an.push(a_rec(&nm("b.a"), 1, [1, 2, 3, 4]));
+        m.ar.push(opt_rec(1232, 0, 0, 0x8000, &[(10, vec![1]), (12, vec![]), (10, vec![2, 2]), (8, vec![0, 1, 0, 0]), (15, vec![0, 9]), (10, vec![3])]));
+        for st in [Strategy::Max, Strategy::Plain] {
+            let p = encode(&m, st);
+            v.push(Item::Rename(p.clone(), nm("z.y"), nm("b.a"), true));
+            v.push(Item::Rename(p.clone(), nm("k"), nm("nomatch"), false));
+            v.push(Item::Uncompress(p.clone()));
+            v.push(Item::Parse(p));
+        }
+    }
     // plain queries: nothing to compress, nothing to expand, nothing to rename (calls that "do nothing" are the
     // ones a streak counter or an adaptive shortcut would count)
     for q in ["b.a", "x.y.z", "example.com"] {
